@@ -80,6 +80,7 @@ struct Res {
 	void *stack[4] = {nullptr, nullptr, nullptr, nullptr};   // shadow stack top at the end (crash/abort/nonterm)
 	void *fault_fn[2] = {nullptr, nullptr};                  // shadow stack top when the first fault fired
 	uint32_t nfn = 0;           // functions entered (distinct), when coverage was requested
+	uint32_t vg_errors = 0;     // memcheck errors counted during the run (worker started under valgrind only)
 	char msg[200] = {0};        // first diagnostic line / assertion text
 };
 
@@ -89,6 +90,8 @@ struct Outcome {
 	std::string report;     // sanitizer report (sanitized build)
 	std::vector<void *> fns; // coverage
 	std::string signature;  // kind + function names
+	std::string vg_sig;     // memcheck: kind of the first error + innermost cproc functions
+	std::string vg_text;    // memcheck: the first error as valgrind printed it
 };
 
 Outcome run_plan(const Plan &p, bool want_sink, bool want_cov);
@@ -97,5 +100,6 @@ void symbols_init(const char *self);
 std::string stress_input(const std::string &family, long knob);
 extern const char *const TARGETS[];
 bool sanitized_build();
+bool under_memcheck();
 
 }  // namespace sb
